@@ -47,6 +47,9 @@ def convertName (name : String) (safeDs : Bool) (isClass : Bool := false) : Stri
 def escapeKeyword (k : String) : String :=
   if Generated.keywords.contains k then Generated.keywordWrap.1 ++ k ++ Generated.keywordWrap.2 else k
 
+/-- `_replace_if_safeds_keyword_in_path`: every segment of a dotted path -/
+def escapePath (path : String) : String := joinWith "." ((pySplit path '.').map escapeKeyword)
+
 /-- `_create_name_annotation` -/
 def nameAnnotation (name : String) : String :=
   Generated.nameAnnotation.1 ++ name ++ Generated.nameAnnotation.2
